@@ -4,6 +4,7 @@ import (
 	"errors"
 	"fmt"
 	"github.com/netflix/rend/orcas"
+	"github.com/netflix/rend/verifshim/vsync"
 	"io"
 	"strings"
 	"sync"
@@ -188,6 +189,10 @@ func RunLockFault(cfg Cfg, init []wire.Op, cmd, follow wire.Op, f *HandlerFault,
 }
 
 func runC12(c *rt.Ctx) {
+	// sync.Pool may drop what it holds at any garbage collection: here it always does (every Get
+	// builds a new object), so nothing the wrapper computes may depend on which pooled object
+	// happens to come back
+	vsync.DropPuts = true
 	item := 0
 	// the panic value varies too: a string, the io.EOF sentinel, an error value, a runtime error
 	modes := []string{"panic-before", "panic-after", "error-before", "error-after", "panic-eof-before", "panic-eof-after", "panic-error-after", "panic-runtime-before"}
